@@ -272,6 +272,14 @@ func (e *apiEnv) run(o apiOp) (sig string, body string, ok bool) {
 			src = "{{ total = \"s\" }}s:{{ total }}"
 		case "getvar":
 			src = "s:{{ total }}"
+		case "sameprintI", "sameprintS":
+			// the same source with data that print alike under %v but are different values: 1 and "1"
+			src = "s:{{ v + v }}|{{ w }}"
+			data = map[string]any{"v": 1, "w": []any{1, 2}}
+			if o.Page == "sameprintS" {
+				data = map[string]any{"v": "1", "w": "[1 2]"}
+			}
+			dataN = -1
 		case "row1":
 			src = "s:{{ r.title }}"
 		case "row2":
@@ -300,7 +308,7 @@ func (e *apiEnv) run(o apiOp) (sig string, body string, ok bool) {
 	}
 	delete(data, "v")
 	delete(data, "u")
-	if data != nil && !reflect.DeepEqual(data, apiDataN(dataN)) {
+	if data != nil && dataN >= 0 && !reflect.DeepEqual(data, apiDataN(dataN)) {
 		sig += " DATA-MODIFIED"
 	}
 	return
